@@ -77,9 +77,8 @@ def check_positions(c, sc, answers, res, rec, out, case):
         j = int(np.argmax(np.maximum(-fr.min(axis=1), fr.max(axis=1) - 1)))
         V('inside-cell', 'outside', 'inserted atom lies outside the unit cell: fractional coordinates %r' % np.round(fr[j], 4).tolist())
     pp = c['pp']; rp_only = c['rpos'][ins_idx]
-    a1, a2, op = resolve_hints(pp)
     P_all = np.vstack([pp, rp_only])
-    cprime = cconst(P_all, a1, a2, op) if len(pp) > 1 else 1.0
+    cprime = combined_c(pp, rp_only)
     for mi, m in enumerate(idxs):
         X = mpos[mi]
         eps = kabsch(pp, X)[0]
@@ -119,7 +118,7 @@ def run(sc, ctx):
         ex = explorer(ctx)
         inv = np.linalg.inv(c['cell'])
         eps0 = max([kabsch(c['pp'], np.asarray(x))[0] for x in exs[0][4][1]] + [0.0])
-        tol = 1e-6 + 2 * cconst(np.vstack([c['pp'], c['rpos']]), *resolve_hints(c['pp'])) * eps0 if len(c['pp']) > 1 else 1e-6
+        tol = 1e-6 + 2 * combined_c(c['pp'], c['rpos']) * eps0
         for ji, (Rm, t) in enumerate(joint_motions(ctx['seed'], 3 if ctx['tier'] == 'quick' else 6)):
             sp2 = pattern_atoms(c['pel'], (Rm @ c['pp'].T).T + t, q0=-0.7, g0=90)
             rp2 = pattern_atoms(c['rel'], (Rm @ c['rpos'].T).T + t)
